@@ -185,7 +185,10 @@ CHECKS.update({
             "and hashmaps, 117 list queues, 134 ideques, 101 random-access lists, (chibi iset): each history replayed on a fresh object "
             "and compared step by step with a Python set / Counter / dict / list model, every earlier persistent version re-observed after "
             "every step, and the red-black / size invariants validated. (c) the pure SRFI 1 / SRFI 133 procedures on all lists / vectors of "
-            "length <= 4 over {0,1,2}.",
+            "length <= 4 over {0,1,2}. (d) larger persistent trees: (srfi 146) mappings and hashmaps of every size <= 33 (70 thorough) built in "
+            "four insertion orders; every single deletion, insertion of an absent key and pop, and every ordered pair of deletions for sizes "
+            "<= 12 (24), each compared in full (alist, size, every lookup, min/max, fold order, the earlier version unchanged) with a sorted "
+            "association list.",
             "Element alphabets are small; comparison procedures are total orders or the stated weak orders only.", "DESIGN.md §4 C18"),
     "C19": ("exploration", "bounded-exhaustive enumeration of codec inputs (round trips against CPython reference codecs) and of hostile texts on an ASan build",
             "enc: base64 / quoted-printable / uri-encode on every byte string of a finite family through every variant (bytevector, "
